@@ -5,7 +5,7 @@ from bounded import emission, graphprops
 PROP = "C07"
 LEVEL = "exploration"
 ENGINE = "pyvc+bounded"
-HARNESS_MODULES = ['contracts.c04_graph_plumbing', 'contracts.c14_grid_frame']
+HARNESS_MODULES = ['contracts.c04_graph_plumbing', 'contracts.c14_grid_frame', 'contracts.c07_emission']
 EXTRA_HARNESSES = [('C04', 'graph_add_edge'), ('C04', 'grid_graph'), ('C14', 'from_grid_frame')]
 MOD = "props.C07"
 instantiate = graphprops.inst_C07
@@ -13,6 +13,8 @@ descs = graphprops.descs_C07
 
 
 def bounded(tier, seed, rep):
+    from bounded import leancheck
+    leancheck.check(rep, "lean/Encoders.lean", ["C07.enc_iff_plain", "C07.enc_iff_sized", "C07.enc_iff_borders"])
     emission.run_parallel(rep, PROP, MOD, list(graphprops.with_builds(list(descs(tier)) + graphprops.deep_descs(PROP, tier))))
 
 
